@@ -15,7 +15,8 @@
 From Coq Require Import List NArith Bool.
 From Mdns Require Import Bytes Rec ParamsRegistry Names WireOut Registry RegistryDaemon RegistrySpec
      RegistryTrace RegistryParamsPinned RegistryProofs RegistryDaemonProofs RegistryLiftProofs RegistryHistoryProofs
-     RegistrySilenceProofs RegistryLivenessProofs RegistryWitnesses RegistryWitnessProofs.
+     RegistrySilenceProofs RegistryLivenessProofs RegistryDeferralProofs RegistryTimingProofs RegistryWitnesses
+     RegistryWitnessProofs.
 Import ListNotations.
 Open Scope N_scope.
 
@@ -294,22 +295,86 @@ Example C07_completion_example :
   queue_times (state_after w_exact_ifs w_exact_its 5) = [1001895].
 Proof. exact w_exact_completion. Qed.
 
-(* STILL PARTIAL, not proved over histories of the daemon model:
-   (a) "no response or announcement speaks for a unique record whose owner name has not completed
-       three probes 250 ms apart (+250 ms) on that interface since the interface (re)appeared / the
-       name was last forgotten", outside classes 42/44/48;
-   (b) "every registration on a usable interface reaches Announced within registration + jitter + 750 ms
-       (+ 1 s per lost tie-break / conflict) on never-late schedules", and `announceable` at the due
-       time of the second announcement as a consequence.
-   What exists: the registry machine (all operation sequences: C07_probe_spacing_all_schedules,
-   C07_three_probes_exact(_full), C07_reaches_active_within_a_second, C07_activation_needs_750), the
-   daemon steps at both ends (C07_registration_is_joins, C07_probing_pass_announces_completed_service,
-   C07_due_second_announcement_sent_partial, the queue theorems) and the executed monitor.  The missing
-   middle is the exact timing of ONE probe through daemon iterations in which other services join
-   probes and competing probes are tie-broken: the lift used so far (QReach: "some quiet operations")
-   hides which names those operations touch; it needs a per-(interface, name) invariant carried
-   through every daemon function (as done for the deferral, C08_deferral_respected_partial, where
-   every quiet operation is harmless). *)
+(* ---- round 9: LIVENESS over histories of the daemon model, without conflict datagrams ----------------------
+   Vocabulary (Proofs/RegistryTimingProofs.v):
+   calm_iter key it   = every datagram of the iteration is a query without authority records; every call is
+                        a registration of ANOTHER service (key = the lower-cased full name of ours),
+                        monitor or a command without effect on the responder (no unregister, no
+                        enable/disable_interface, no shutdown, no response datagram);
+   never_late st its  = every iteration happens no later than due_work of the state it starts from;
+   all_running st its = every iteration leaves the daemon running;
+   Qj s itf v4 T j rg = no rename recorded in rg, probing names pairwise different, and BOTH probes of the
+                        service - instance name and host name - exist, started at T, with j probe queries
+                        sent (next_send = T + 250 j), the service on their waiting lists, its SRV/TXT resp.
+                        address records (of family v4 on itf) among their records;
+   Kept Q k key s itf st = the daemon is alive, interface k is itf, its registry satisfies Q, the service is
+                        registered under key (same data);
+   Done k key svcs    = the service under key is in the state Announced on interface k.
+
+   REACHES ANNOUNCED.  From a state in which both probes of a service that requires probing are in their
+   initial state on a usable interface (as a registration with fresh names leaves them: start = next_send
+   = T = registration time + jitter < registration + 250, C07_registration_is_joins /
+   C07_reaches_active_within_a_second), through ANY history of calm iterations that is never late: if the
+   history goes on until T + 750, it contains an iteration at exactly T + 750 after which the service is
+   Announced on the interface - i.e. within registration + jitter + 750 ms.
+   `_partial`: no conflict datagrams (the "+ 1000 ms per lost tie-break / conflict" part is not proved),
+   no unregister / interface toggle / re-registration of the same service in between, host name probed
+   together with the instance name (not shared with an older service). *)
+Theorem C07_reaches_announced_partial : forall s0 itf v4 T key st its,
+  key = lower (s_full s0) -> s_probe s0 = true -> addrs_on_intf s0 itf v4 <> [] ->
+  NoDup (map if_index (d_intfs st)) -> Kept (Qj s0 itf v4 T 0) (if_index itf) key s0 itf st ->
+  Forall (calm_iter key) its -> all_running st its -> never_late st its ->
+  (exists it, In it its /\ T + 750 <= it_now it) ->
+  exists pre it post, its = pre ++ it :: post /\ it_now it = T + 750 /\
+                      Done (if_index itf) key (d_svcs (run_state st (pre ++ [it]))).
+Proof. exact reaches_announced. Qed.
+
+(* THE TIMETABLE behind it (this is also the daemon-level form of "three probes 250 ms apart before the
+   name is spoken for", for these histories): from phase j, a never-late calm history either reaches the
+   iteration at T + 750 that announces, or is still in a phase j' >= j with every iteration so far
+   strictly before T + 250 j' - the probe queries went out in iterations at exactly T + 250 j, ... *)
+Theorem C07_probe_timetable_partial : forall s0 itf v4 T key,
+  key = lower (s_full s0) -> s_probe s0 = true -> addrs_on_intf s0 itf v4 <> [] ->
+  forall its st j, (j <= 3)%nat ->
+  NoDup (map if_index (d_intfs st)) -> Kept (Qj s0 itf v4 T j) (if_index itf) key s0 itf st ->
+  Forall (calm_iter key) its -> all_running st its -> never_late st its ->
+  (exists pre it post, its = pre ++ it :: post /\ it_now it = T + 750 /\
+                       Done (if_index itf) key (d_svcs (run_state st (pre ++ [it])))) \/
+  (exists j', (j <= j' <= 3)%nat /\ Kept (Qj s0 itf v4 T j') (if_index itf) key s0 itf (run_state st its) /\
+              Forall (fun it => it_now it < T + 250 * N.of_nat j') its).
+Proof. exact reaches_announced_gen. Qed.
+
+(* one calm iteration, exactly: before the probe's next_send nothing changes for it; at next_send the next
+   probe query is sent (j < 3) or the probes finish and the service is announced (j = 3) *)
+Theorem C07_calm_iteration_step : forall s0 itf v4 T j key st it st' os js,
+  let k := if_index itf in
+  key = lower (s_full s0) -> s_probe s0 = true -> addrs_on_intf s0 itf v4 <> [] ->
+  NoDup (map if_index (d_intfs st)) -> calm_iter key it -> iterate st it = (st', os, Running, js) ->
+  Kept (Qj s0 itf v4 T j) k key s0 itf st ->
+  d_intfs st' = d_intfs st /\
+  (it_now it < T + 250 * N.of_nat j -> Kept (Qj s0 itf v4 T j) k key s0 itf st') /\
+  (it_now it = T + 250 * N.of_nat j -> (j < 3)%nat -> Kept (Qj s0 itf v4 T (S j)) k key s0 itf st') /\
+  (it_now it = T + 250 * N.of_nat j -> j = 3%nat -> Done k key (d_svcs st')).
+Proof. exact calm_iteration. Qed.
+
+(* non-vacuity: w_exact is such a history (registration at t0, jitter 145: both probes start at T = t0 + 145;
+   iterations at T, T + 250, T + 500, T + 750; Announced after the last) *)
+Example C07_liveness_example :
+  map (fun kr => map (fun np => (pb_start (snd np), pb_next (snd np))) (rg_probing (snd kr))) (d_regs (state_after w_exact_ifs w_exact_its 1))
+  = [[(1000145, 1000145); (1000145, 1000145)]] /\
+  map it_now (firstn 5 w_exact_its) = [1000000; 1000145; 1000395; 1000645; 1000895] /\
+  map (fun ks => s_status (snd ks)) (d_svcs (state_after w_exact_ifs w_exact_its 5)) = [[(2, SAnnounced)]].
+Proof. exact w_exact_liveness_shape. Qed.
+
+(* STILL NOT PROVED over histories of the daemon model:
+   (a) the safety form over ALL histories outside classes 42/44/48: "no response or announcement carries a
+       record built from a service on an interface where the owner name has not completed three probes";
+       what exists: the timetable above for calm never-late histories, the executed monitor (codes 32, 36),
+       the registry machine over all operation sequences;
+   (b) the bound with lost tie-breaks / conflicts (+ 1000 ms each);
+   (c) `announceable` at the due time of the second announcement derived from the history (it needs the
+       active records and the name changes of the interface to be carried on from Done; the hypothesis of
+       C07_due_second_announcement_sent_partial stays). *)
 
 (* History level, full statement (validated on every generated history by running chk_C07 on the
    model's own observation, NOT proved):
@@ -354,6 +419,10 @@ Print Assumptions C07_announcement_of_is_an_announcement.
 Print Assumptions C07_second_announcement_sent_example.
 Print Assumptions C07_probing_pass_announces_completed_service.
 Print Assumptions C07_completion_example.
+Print Assumptions C07_reaches_announced_partial.
+Print Assumptions C07_probe_timetable_partial.
+Print Assumptions C07_calm_iteration_step.
+Print Assumptions C07_liveness_example.
 Print Assumptions C07_three_probes_on_late_schedules_refuted.
 Print Assumptions C07_record_joining_a_probe_refuted.
 Print Assumptions C07_reprobe_after_host_rename.
